@@ -504,13 +504,20 @@ func (g *faultGen) walk(v any, t T, steps []step, kinds []string, ctx []string) 
 		g.emit("wrong_type", steps, kinds, ctx, replace(wrongTypeValue(t)))
 	case KInt:
 		g.emit("wrong_type", steps, kinds, ctx, replace(wrongTypeValue(t)))
+		wlo, whi := widthRange(t.Width)
 		if t.Min != nil {
 			lo, _ := intBounds(T{Kind: KInt, Min: t.Min, ExclMin: t.ExclMin})
-			g.emit("bound_violated", steps, kinds, ctx, replace(json.Number(strconv.FormatInt(lo-1, 10))))
+			// a value that leaves the width (e.g. -1 for a uint64) is not a
+			// constraint violation but a value of the wrong type
+			if float64(lo-1) >= wlo {
+				g.emit("bound_violated", steps, kinds, ctx, replace(json.Number(strconv.FormatInt(lo-1, 10))))
+			}
 		}
 		if t.Max != nil {
 			_, hi := intBounds(T{Kind: KInt, Max: t.Max, ExclMax: t.ExclMax})
-			g.emit("bound_violated", steps, kinds, ctx, replace(json.Number(strconv.FormatInt(hi+1, 10))))
+			if float64(hi+1) <= whi {
+				g.emit("bound_violated", steps, kinds, ctx, replace(json.Number(strconv.FormatInt(hi+1, 10))))
+			}
 		}
 	case KFloat:
 		g.emit("wrong_type", steps, kinds, ctx, replace(wrongTypeValue(t)))
